@@ -11,12 +11,12 @@ CONSTANTS
   Creds = {"token", "missing"}
   Places = {"header"}
   Sizes = {"small"}
-  Kinds = {"html", "xml", "text", "js", "json", "svg", "pdf", "zip", "png", "gif", "jpeg", "wav", "mp4", "bin", "bin_none", "bin_msg", "bin_junk", "bin_html", "bin_svg", "bin_js", "bin_png", "bin_font", "nofile", "empty"}
+  Kinds = {"html", "xml", "text", "js", "json", "svg", "pdf", "zip", "png", "gif", "jpeg", "wav", "mp4", "bin", "bin_none", "bin_msg", "bin_junk", "bin_html", "bin_svg", "bin_js", "bin_json", "bin_png", "bin_font", "nofile", "empty"}
   Faults = {"none", "create", "start", "finish"}
   Shapes = {"canon", "noext", "bare", "rel", "dot_in", "updown", "dot_out", "escape", "absolute", "encslash", "encdots", "odd_tail", "odd_head", "query", "queryslash", "dblslash"}
   Limits = {100}
   NewaccVals = {FALSE}
-  AsattVals = {TRUE, FALSE}
+  AsattVals = {"<none>", "<empty>", "0", "false", "f", "F", "1", "true", "T", "junk"}
   LongVals = {TRUE, FALSE}
   AllowSlow = TRUE
   DEV_NewaccNoAuth = FALSE
